@@ -4,6 +4,7 @@ import (
 	"fmt"
 	"reflect"
 	"sort"
+	"strings"
 
 	"google.golang.org/protobuf/proto"
 )
@@ -21,6 +22,17 @@ func NilSites(p proto.Message) []NilSite {
 	var out []NilSite
 	collectNilSites(reflect.ValueOf(p), "", &out, 0)
 	return out
+}
+
+var bytesType = reflect.TypeOf([]byte(nil))
+
+// flipBytes describes the site "an empty bytes value held the other way":
+// nil becomes []byte{} and []byte{} becomes nil.
+func flipBytes(desc string, isNil bool, set func(reflect.Value)) NilSite {
+	if isNil {
+		return NilSite{Desc: desc + "=empty-non-nil-bytes", set: func() { set(reflect.ValueOf([]byte{})) }}
+	}
+	return NilSite{Desc: desc + "=nil-bytes", set: func() { set(reflect.Zero(bytesType)) }}
 }
 
 var protoMessageType = reflect.TypeOf((*proto.Message)(nil)).Elem()
@@ -68,11 +80,34 @@ func collectNilSites(v reflect.Value, path string, out *[]NilSite, depth int) {
 				*out = append(*out, NilSite{Desc: fmt.Sprintf("%s[%v]=nil", p, k.Interface()), set: func() { mp.SetMapIndex(k, reflect.Zero(mp.Type().Elem())) }})
 				collectNilSites(mv, fmt.Sprintf("%s[%v]", p, k.Interface()), out, depth+1)
 			}
+		case fv.Kind() == reflect.Slice && fv.Type().Elem() == bytesType:
+			// repeated bytes: an element that is empty may be held as nil or as []byte{}
+			for j := 0; j < fv.Len(); j++ {
+				el := fv.Index(j)
+				if el.Len() == 0 {
+					*out = append(*out, flipBytes(fmt.Sprintf("%s[%d]", p, j), el.IsNil(), func(v reflect.Value) { el.Set(v) }))
+				}
+			}
+		case fv.Kind() == reflect.Map && fv.Type().Elem() == bytesType:
+			keys := fv.MapKeys()
+			sort.Slice(keys, func(a, b int) bool { return fmt.Sprint(keys[a].Interface()) < fmt.Sprint(keys[b].Interface()) })
+			for _, k := range keys {
+				k := k
+				mv := fv.MapIndex(k)
+				mp := fv
+				if mv.Len() == 0 {
+					*out = append(*out, flipBytes(fmt.Sprintf("%s[%v]", p, k.Interface()), mv.IsNil(), func(v reflect.Value) { mp.SetMapIndex(k, v) }))
+				}
+			}
 		case fv.Kind() == reflect.Interface && !fv.IsNil():
 			// oneof wrapper: *T_Member{Member: value}
 			w := fv.Elem()
 			if w.Kind() == reflect.Ptr && !w.IsNil() && w.Elem().Kind() == reflect.Struct && w.Elem().NumField() == 1 {
 				inner := w.Elem().Field(0)
+				if inner.Type() == bytesType && inner.Len() == 0 {
+					// a set bytes member that is empty: nil and []byte{} are the same value
+					*out = append(*out, flipBytes(p+".wrapper", inner.IsNil(), func(v reflect.Value) { inner.Set(v) }))
+				}
 				if isMsgPtr(inner.Type()) && !inner.IsNil() {
 					*out = append(*out, NilSite{Desc: p + ".wrapper=nil-message", set: func() { inner.Set(reflect.Zero(inner.Type())) }})
 					collectNilSites(inner, p, out, depth+1)
@@ -82,6 +117,19 @@ func collectNilSites(v reflect.Value, path string, out *[]NilSite, depth int) {
 			collectNilSites(fv, p, out, depth+1)
 		}
 	}
+}
+
+// FlipEmptyBytes holds every empty bytes value (oneof member, list element,
+// map value) the other way: nil <-> []byte{}. The message value is unchanged.
+func FlipEmptyBytes(p proto.Message) int {
+	n := 0
+	for _, s := range NilSites(p) {
+		if strings.HasSuffix(s.Desc, "bytes") {
+			s.Apply()
+			n++
+		}
+	}
+	return n
 }
 
 // Apply sets the site to nil.
